@@ -3,6 +3,8 @@ package main
 // C13 Block rewards stay within the pulled amount and the yearly schedule: structural necessary conditions.
 
 import (
+	"go/token"
+	"sort"
 	"strings"
 
 	"golang.org/x/tools/go/ssa"
@@ -229,6 +231,8 @@ func runC13(r *Run) {
 		}
 		r.Check(okL, "C13.dump", fname(ls), list+" is loaded through its own adder", adder+"(element.Address, element.Amount)", "the loader books "+list+" into another table than the one it was dumped from", p.pos(ls.Pos()))
 	}
+	checkCycleAligned(r)
+	checkIntervalIndexSiblings(r)
 	r.Floor("C13.", 16)
 }
 
@@ -262,4 +266,128 @@ func derivesFromAccumulated(fn *ssa.Function, v ssa.Value, pred func(ssa.Value) 
 		}
 	})
 	return found
+}
+
+// checkCycleAligned: every block-store height the reward calculator reads is a constant or aligned to the calculation
+// cycle ((h-1)/cycle*cycle+1 and offsets of it by the cycle): a node that recomputes in the middle of a cycle then
+// reads the same blocks as the nodes that computed at its first block.
+func checkCycleAligned(r *Run) {
+	p := r.P
+	n := 0
+	for _, fn := range sortedFns(p.Fns) {
+		if fn.Blocks == nil || fnPkg(fn) == nil || fnPkg(fn).Path() != Mod+"/data/rewards" || fn.Signature.Recv() == nil || !strings.HasSuffix(tname(fn.Signature.Recv().Type()), "RewardCalculator") {
+			continue
+		}
+		fn := fn
+		allInstrs(fn, func(ins ssa.Instruction) {
+			c, ok := ins.(*ssa.Call)
+			if !ok || !strings.HasSuffix(calleeName(c), "BlockStore).LoadBlockMeta") {
+				return
+			}
+			n++
+			h := c.Call.Args[1]
+			okv := false
+			if _, isK := intConst(h); isK {
+				okv = true
+			} else {
+				// aligned: passes through x/cycle*cycle
+				okv = derivesFrom(h, func(y ssa.Value) bool {
+					mul, ok := y.(*ssa.BinOp)
+					if !ok || mul.Op != token.MUL {
+						return false
+					}
+					for _, pair := range [][2]ssa.Value{{mul.X, mul.Y}, {mul.Y, mul.X}} {
+						if q, ok := pair[0].(*ssa.BinOp); ok && q.Op == token.QUO && samePath(q.Y, pair[1]) {
+							return true
+						}
+					}
+					return false
+				})
+			}
+			r.Check(okv, "C13.schedule", fname(fn), "block time read at a cycle-aligned height", "constant height or (x / cycle) * cycle + offset", "the calculator reads block times at a height that depends on where inside a cycle it is asked: a node restarted in the middle of a cycle forecasts another number of blocks and pays another per-block amount than the others", p.ipos(c))
+		})
+	}
+	if n < 3 {
+		fail("C13.schedule: only %d block-store reads in the reward calculator (expected 3)", n)
+	}
+}
+
+// exprShape: canonical shape of an integer expression: operators, constants and the names of the record fields it reads;
+// everything else is a wildcard. Commutative operators are ordered.
+func exprShape(v ssa.Value, depth int) string {
+	if depth > 12 {
+		return "?"
+	}
+	switch x := v.(type) {
+	case *ssa.Const:
+		if k, ok := intConst(x); ok {
+			return itoa(k)
+		}
+	case *ssa.Convert:
+		return exprShape(x.X, depth+1)
+	case *ssa.ChangeType:
+		return exprShape(x.X, depth+1)
+	case *ssa.BinOp:
+		if x.Op == token.ADD || x.Op == token.MUL {
+			// associative and commutative: flatten and order the operands
+			var terms []string
+			var flat func(v ssa.Value, d int)
+			flat = func(v ssa.Value, d int) {
+				if b, ok := v.(*ssa.BinOp); ok && b.Op == x.Op && d < 8 {
+					flat(b.X, d+1)
+					flat(b.Y, d+1)
+					return
+				}
+				if c, ok := v.(*ssa.Convert); ok {
+					if b, ok := c.X.(*ssa.BinOp); ok && b.Op == x.Op && d < 8 {
+						flat(b.X, d+1)
+						flat(b.Y, d+1)
+						return
+					}
+				}
+				terms = append(terms, exprShape(v, depth+1))
+			}
+			flat(x, 0)
+			sort.Strings(terms)
+			return "(" + x.Op.String() + " " + strings.Join(terms, " ") + ")"
+		}
+		return "(" + x.Op.String() + " " + exprShape(x.X, depth+1) + " " + exprShape(x.Y, depth+1) + ")"
+	case *ssa.UnOp:
+		if x.Op == token.MUL {
+			if fs := pathOf(x).Fields; len(fs) > 0 {
+				last := fs[len(fs)-1]
+				if last == "LastIndex" || last == "LastHeight" {
+					return "F:" + last
+				}
+			}
+		}
+	}
+	return "?"
+}
+
+// checkIntervalIndexSiblings: the reward store computes "the interval index of a height" in several places; the state dump
+// must use the same expression as the key builder (a dump taken with another rounding matures a chunk twice after import).
+func checkIntervalIndexSiblings(r *Run) {
+	p := r.P
+	gk := p.MustFn("(*data/rewards.RewardStore).generateKey")
+	ref := ""
+	allInstrs(gk, func(ins ssa.Instruction) {
+		c, ok := ins.(*ssa.Call)
+		if ok && calleeName(c) == "strconv.FormatInt" {
+			ref = exprShape(c.Call.Args[0], 0)
+		}
+	})
+	if !strings.Contains(ref, "F:LastIndex") {
+		fail("C13.dump: the interval index expression of generateKey was not recognised (%s)", ref)
+	}
+	ds := p.MustFn("(*data/rewards.RewardStore).dumpState")
+	got := ""
+	allInstrs(ds, func(ins ssa.Instruction) {
+		st, ok := ins.(*ssa.Store)
+		if ok && strings.HasSuffix(pathOf(st.Addr).FieldString(), "LastIndex") {
+			got = exprShape(st.Val, 0)
+		}
+	})
+	r.Check(got == ref, "C13.dump", fname(ds), "the dumped interval index is computed like the key builder's", ref,
+		"the state dump computes the current interval index with another expression ("+got+") than generateKey ("+ref+"): at some heights the imported chain matures a reward chunk a second time", p.pos(ds.Pos()))
 }
